@@ -50,6 +50,9 @@ pub fn init_worker() {
         let devnull = std::ffi::CString::new("/dev/null").unwrap();
         let dn = libc::open(devnull.as_ptr(), libc::O_WRONLY);
         libc::dup2(dn, 1);
+        if std::env::var("AGVERIF_DEBUG").is_ok() {
+            return;
+        }
         let dir = std::env::var("AGVERIF_SCRATCH").unwrap_or_else(|_| "/verif/harness/target/scratch".into());
         let _ = std::fs::create_dir_all(&dir);
         let path = format!("{}/stderr.{}", dir, std::process::id());
